@@ -1,11 +1,13 @@
 From Coq Require Import ZArith List String Bool.
-From FV Require Import Base.Ser Base.Res C02.Model.
+From FV Require Import Base.Ser Base.Res C02.Model C02.ModelGlyf.
 Import ListNotations.
 Open Scope string_scope.
 Definition reg : registry := [
   ("loca_compile", run1 loca_compile);
   ("loca_decompile", run2 loca_decompile);
   ("hmtx_compile", run1 hmtx_compile);
-  ("hmtx_decompile", run3 hmtx_decompile)
+  ("hmtx_decompile", run3 hmtx_decompile);
+  ("compileDeltasGreedy", run1 compileDeltasGreedy);
+  ("decompileCoordinates", run2 decompileCoordinates)
 ].
 Definition fv_entry := dispatch reg.
